@@ -411,7 +411,7 @@ impl World for WorldG {
         // ---- operation mix
         // approve, validate_proof, consume, deliver, query, rotate, sweep, construct, advance, role, call_contract, example_send, resubmit
         let w: [u32; 13] = match focus {
-            "C01" => [40, 14, 5, 2, 4, 10, 2, 0, 5, 1, 0, 0, 10],
+            "C01" => [40, 14, 5, 2, 4, 10, 2, 2, 5, 1, 0, 0, 10],
             "C02" => [30, 1, 24, 8, 12, 3, 0, 0, 2, 0, 0, 0, 12],
             "C03" => [6, 2, 2, 0, 2, 45, 2, 8, 12, 5, 0, 0, 8],
             "C08" => [8, 6, 2, 0, 1, 34, 30, 3, 12, 2, 0, 0, 10],
